@@ -277,6 +277,26 @@ CLAIMED.update({
 PENDING_REASON = "check not built yet in this round (design in DESIGN.md section 4); not claimed until it exists"
 
 
+CLAIMED.update({
+    "C14": {
+        "text": "Machine-checked proof that (a) every constructor id in the table regenerated from the repo's own TL "
+                "registrator is the CRC-32 (bitwise definition) of its schema text (sweep over all 822 lines), (b) byte/"
+                "string framing is the TL length-prefix + padding rule for every length below 2^24 and is parsed back "
+                "exactly, (c) little-endian integers round-trip, (d) for every table whose constructors resolve uniquely, and "
+                "in particular for the generated table, every value the independent TL encoding (Spec/TlSpec.v) accepts - "
+                "flag-selected fields, nested bare/boxed objects, vectors of objects, bytes and strings - serialises to "
+                "exactly that encoding and parses back to the same value consuming all bytes, (e) block-id bytes "
+                "round-trip. Model tied to tl/generator.py and tl/block.py by a differential run over all constructors.",
+        "design_ref": "DESIGN.md 4.14",
+        "technique": "Coq proof (vm_compute sweep over the generated table; strong induction on the specification's fuel for "
+                     "the generic round trip) over a schema table regenerated from source; correspondence by extracted "
+                     "OCaml model; independent Python TL encoder as oracle",
+        "note": "All theorems closed under the global context. Guards: payloads that begin with a known constructor id are "
+                "auto-parsed by the library by design (no_auto_capture); lengths below 2^24.",
+    },
+})
+
+
 def main():
     props = [json.loads(l)["id"] for l in open(os.path.join(HERE, "properties.jsonl"))]
     checks = []
